@@ -328,3 +328,76 @@ def fault_cases():
         add("text:transport_dump:" + nm, _run_ops("run_string", "SOLUTION 0-2\n Na 1\n Cl 1\nTRANSPORT\n -cells 2\n -shifts 2\n -dump %s\n -dump_frequency 1\nEND\n" % path))
         add("text:netpath:" + nm, _run_ops("run_string", "SOLUTION 1\n pH 7\n Ca 1\n C(4) 2\nSOLUTION 2\n pH 7.5\n Ca 1.5\n C(4) 3\nINVERSE_MODELING 1\n -solutions 1 2\n -phases\n  Calcite\n  CO2(g)\n -lon_netpath %s\n -pat_netpath %s\nEND\n" % (path, path)))
     return out
+
+
+# ------------------------------------------------------------------------------------------------ engine D
+# Small-scope enumeration over the seed corpus of engine A (198 inputs): every numeric token is replaced, one at a
+# time, by each value of ENUM_VALUES; every BASIC line is deleted / has one token deleted / (NEXT) gets another loop
+# variable.  Two exclusions by construction, both counted: the two huge values are not put on count-like lines
+# (cells, shifts, steps, frequencies ...: the run would loop for hours, a resource limit) and INT_MAX is not put on
+# the user number of a keyword line (recorded known findings K3a-K3e, some of which loop from INT_MIN to INT_MAX).
+ENUM_VALUES = ["0", "-1", "1", "2147483647", "1e308", "-1e308", "1e-308", "nan"]
+ENUM_BIG = {"2147483647", "1e308"}
+ENUM_NUM = re.compile(r"(?<![\w.+\-(\"$])[-+]?(\d+\.?\d*|\.\d+)([eE][-+]?\d+)?(?![\w.)\"$])")
+ENUM_COUNT_LINE = re.compile(r"cells|shift|steps?\b|count|iter|stag|\bin\b|cvode_steps|bad_step|range|RUN_CELLS|COPY|DELETE|SAVE|DUMP|divide|-\d|\d-\d|time_step|-time\b|initial_time", re.I)
+BASIC_LINE = re.compile(r"^(\s*)(\d+)(\s+)([A-Za-z].*)$")
+
+
+def enum_seed_texts(repo):
+    items = [(n, t) for n, t in S.BLOCKS if n not in ("include", "include_missing")] + S.example_seeds(repo)
+    return items
+
+
+def enum_cases(repo):
+    """-> (list of (label, text, meta), counters of exclusions); deterministic order"""
+    out = []
+    excl = {"count_like_big": 0, "known_K3_user_number": 0}
+    for name, text in enum_seed_texts(repo):
+        lines = text.split("\n")
+        # numbers
+        pos = 0
+        for li, line in enumerate(lines):
+            first = line.split()[0] if line.split() else ""
+            is_kw = bool(re.match(r"^[A-Z_]{3,}$", first)) and not line.startswith((" ", "\t"))
+            count_like = bool(ENUM_COUNT_LINE.search(line))
+            is_basic = bool(BASIC_LINE.match(line))
+            seen_num_on_line = 0
+            for m in ENUM_NUM.finditer(line):
+                if is_basic and m.start() <= len(BASIC_LINE.match(line).group(1)) + len(BASIC_LINE.match(line).group(2)):
+                    continue            # the BASIC line number itself
+                seen_num_on_line += 1
+                for v in ENUM_VALUES:
+                    if v == m.group(0):
+                        continue
+                    if count_like and v in ENUM_BIG:
+                        excl["count_like_big"] += 1
+                        continue
+                    if is_kw and v == "2147483647":
+                        excl["known_K3_user_number"] += 1
+                        continue
+                    nl = line[:m.start()] + v + line[m.end():]
+                    out.append((name, "\n".join(lines[:li] + [nl] + lines[li + 1:]), {"op": "num", "value": v, "line": li}))
+        # BASIC lines
+        for li, line in enumerate(lines):
+            bm = BASIC_LINE.match(line)
+            if not bm:
+                continue
+            out.append((name, "\n".join(lines[:li] + lines[li + 1:]), {"op": "basic_delete_line", "line": li}))
+            body = bm.group(4)
+            toks = [(t.start(), t.end()) for t in re.finditer(r"\"[^\"]*\"|[A-Za-z_$][\w$]*|\d+\.?\d*(?:[eE][-+]?\d+)?|\S", body)]
+            for a, b in toks:
+                nb = body[:a] + body[b:]
+                out.append((name, "\n".join(lines[:li] + [bm.group(1) + bm.group(2) + bm.group(3) + nb] + lines[li + 1:]), {"op": "basic_delete_token", "line": li}))
+            nm = re.match(r"^(NEXT)\b\s*([A-Za-z_]\w*)?", body, re.I)
+            if nm:
+                for var in ("k9", ""):
+                    if (nm.group(2) or "") == var:
+                        continue
+                    nb = "NEXT " + var + body[nm.end():]
+                    out.append((name, "\n".join(lines[:li] + [bm.group(1) + bm.group(2) + bm.group(3) + nb.rstrip()] + lines[li + 1:]), {"op": "basic_next_variable", "line": li}))
+    return out, excl
+
+
+def enum_case(name, text, meta, idx):
+    m = dict(meta, engine="D", seed=name, index=idx)
+    return {"kind": "api", "ops": [["strings", "", "9"], ["run_string", "", text]], "meta": m}
